@@ -196,6 +196,77 @@ let do_ra mask ops =
   Buffer.add_string b (Printf.sprintf " req=%d" (int_of_nat !k));
   print_endline (Buffer.contents b)
 
+let do_str mask ops =
+  let (_, okh) = oracle_pair mask in
+  let b = Buffer.create 256 in
+  Buffer.add_string b "S str";
+  let s = ref Oomtxn.str_empty and k = ref Oomtxn.O in
+  List.iter (fun tok ->
+    let arg = tail tok in
+    let op = match tok.[0] with
+      | 'a' -> Oomtxn.SAppend (bytes_of_hex arg) | 's' -> Oomtxn.SAssign (bytes_of_hex arg)
+      | 'c' -> Oomtxn.SAppendChars (cz_of_string arg) | 'C' -> Oomtxn.SAssignChars (cz_of_string arg)
+      | 'x' -> Oomtxn.SClear | 'r' -> Oomtxn.SReset | 't' -> Oomtxn.STruncate (cz_of_string arg)
+      | _ -> failwith "sop" in
+    let ((r, s1), k1) = Oomtxn.str_step okh op !s !k in
+    s := s1; k := k1;
+    Buffer.add_string b (Printf.sprintf " %d/%d/%d/%d" (rc r) (List.length s1.Oomtxn.st_chars) (zi s1.Oomtxn.st_cap) (if s1.Oomtxn.st_large then 1 else 0))) ops;
+  Buffer.add_string b (" | " ^ (if !s.Oomtxn.st_chars = [] then "-" else hex_of_bytes !s.Oomtxn.st_chars));
+  Buffer.add_string b (Printf.sprintf " req=0,%d" (int_of_nat !k));
+  print_endline (Buffer.contents b)
+
+(* R <owners csv|-> <homes bits|-> <stack-used bits|->: validate a register-allocator state dumped from a real pass run *)
+let do_racheck owners homes used =
+  let bits s = if s = "-" then [] else List.init (String.length s) (fun i -> s.[i] = '1') in
+  let ow = if owners = "-" then [] else List.map (fun x -> nat_of_int (int_of_string x)) (String.split_on_char ',' owners) in
+  let negative = owners <> "-" && List.exists (fun x -> int_of_string x < 0) (String.split_on_char ',' owners) in
+  let hb = bits homes and ub = bits used in
+  let refs = List.concat (List.mapi (fun i u -> if u then [nat_of_int i] else []) ub) in
+  let s = { Oomtxn.ra_slots = ow; ra_cap = cz_of_int 0; ra_home = hb; ra_refs = refs } in
+  Printf.printf "R %d %d\n" (if (not negative) && Oomtxn.ra_check s then 1 else 0) (rc (Oomtxn.ra_rewrite s))
+
+(* S jit / S jitd: JitAllocator::alloc / release = C09's span model (Oomtxn.alloc inside jit_alloc, Oomtxn.release) x C15's block creation *)
+let do_jit dual mask ops =
+  let (okv, okh) = oracle_pair mask in
+  let b = Buffer.create 256 in
+  Buffer.add_string b (if dual then "S jitd" else "S jit");
+  let cfg = { Oomtxn.c_gran = cz_of_int 64; c_pools = cz_of_int 1; c_bsize = cz_of_int 65536; c_pad = true; c_imm = false; c_var = Oomtxn.fixed } in
+  let st = ref (Oomtxn.init_state cfg) and s = ref Oomtxn.vms_init and kv = ref Oomtxn.O and kh = ref Oomtxn.O in
+  let spans = ref [] and blockmap = ref [] in
+  List.iter (fun tok ->
+    let r =
+      match tok.[0] with
+      | 'j' ->
+        let nh = List.length !s.Oomtxn.vs_handles and nid = !st.Oomtxn.nextid in
+        let ((((st1, res), s1), kv1), kh1) = Oomtxn.jit_alloc okv okh dual cfg !st !s (cz_of_string (tail tok)) !kv !kh in
+        if List.length s1.Oomtxn.vs_handles > nh && (match List.nth s1.Oomtxn.vs_handles nh with Some _ -> true | None -> false) then
+          blockmap := (z_of_cz nid, nh) :: !blockmap;
+        st := st1; s := s1; kv := kv1; kh := kh1;
+        (match res with
+         | Oomtxn.RAlloc (Oomtxn.Ok0, id, off, _) -> spans := !spans @ [Some (id, off)]; 0
+         | Oomtxn.RAlloc (Oomtxn.OutOfMemory, _, _, _) -> spans := !spans @ [None]; 1
+         | _ -> spans := !spans @ [None]; 2)
+      | 'k' ->
+        let i = int_of_string (tail tok) in
+        (match (if i < List.length !spans then List.nth !spans i else None) with
+         | None -> 2
+         | Some (id, off) ->
+           let (st1, res) = Oomtxn.release cfg !st id off in
+           st := st1;
+           spans := List.mapi (fun j x -> if j = i then None else x) !spans;
+           (match res with
+            | Oomtxn.RRelease (Oomtxn.Ok0, bid, deleted) ->
+              if deleted then begin
+                let h = List.assoc (z_of_cz bid) !blockmap in
+                let (((_, s1), _), _) = Oomtxn.vm_step okv okh (Oomtxn.VDel (nat_of_int h)) !s !kv !kh in
+                s := s1
+              end; 0
+            | _ -> 2))
+      | _ -> failwith "jitop" in
+    Buffer.add_string b (Printf.sprintf " %d/%d/%d/%d" r (List.length !s.Oomtxn.vs_views) (int_of_nat !s.Oomtxn.vs_heap) (List.length !st.Oomtxn.blocks))) ops;
+  Buffer.add_string b (Printf.sprintf " | end 0/0/0 req=%d,%d" (int_of_nat !kv) (int_of_nat !kh));
+  print_endline (Buffer.contents b)
+
 let () =
   try
     while true do
@@ -209,7 +280,11 @@ let () =
         | "S" :: "pool" :: mask :: ops -> do_pool mask ops
         | "S" :: "holder" :: mask :: ops -> do_holder mask ops
         | "S" :: "builder" :: mask :: ops -> do_builder mask ops
+        | "R" :: owners :: homes :: used :: _ -> do_racheck owners homes used
         | "S" :: "ra" :: mask :: ops -> do_ra mask ops
+        | "S" :: "str" :: mask :: ops -> do_str mask ops
+        | "S" :: "jit" :: mask :: ops -> do_jit false mask ops
+        | "S" :: "jitd" :: mask :: ops -> do_jit true mask ops
         | "S" :: "vm" :: mask :: ops -> do_vm false mask ops
         | "S" :: "vmd" :: mask :: ops -> do_vm true mask ops
         | [] -> ()
